@@ -14,6 +14,14 @@ A case is a *history*: a list of operations executed in one fresh temporary dire
 
     el = {"k":"map","a":1..9,"raise":k|null} | {"k":"cache","c":id,"rc":bool}
 
+    {"op":"splitrun", "src":…, "outer":[el…], "branch":[el…], "bufsize":n|null, "take":…, "fin":…, "bare":bool,
+     "pre":[member…], "post":[member…], "wrap":[…]}     Source(src, *outer, Split([*pre, Sequence(*branch), *post], bufsize))()
+    member = {"k":"seq","els":[el…],"tuple":bool} | {"k":"fc","a":a} | {"k":"fr","a":a}   (FillCompute / FillRequest accumulators)
+    run options: "nest":[i,j(,depth)] els[i:j] in `depth` nested Sequences; "share":[i,j,key] els[i:j] are ONE Sequence
+    object in all runs of the history with that key; "reuse": the pipeline object of an earlier run of the same shape;
+    "keep": the object alter_sequence returned in the first run is what later runs call.  Case option "dirs": the cache
+    files lie in directories that do not exist before the first Cache on them is made.
+
 Every run builds a new pipeline (new Cache objects on the same file names, a new instrumented source
 and new instrumented elements), pulls `take` values (null: until the end) and then either drops the
 generator (`close`: CPython finalises the suspended generators at once) or keeps it — or the exception
@@ -34,11 +42,12 @@ from harness.common import CaseTimeout, exc_name, jdump
 
 PID = "C18"
 TITLE = "Cache replays exactly the stored flow and never serves a truncated one"
-LEAN_MODULES = ["LenaModel.Props.C18", "LenaModel.Props.C18Split", "LenaModel.Props.C18Ctx", "LenaModel.Props.C18Spec"]
+LEAN_MODULES = ["LenaModel.Props.C18", "LenaModel.Props.C18Split", "LenaModel.Props.C18Ctx", "LenaModel.Props.C18Spec",
+                "LenaModel.Props.C18Multi"]
 LEAN_SOURCES = ["LenaModel/Model/C18.lean", "LenaModel/Model/C18Split.lean", "LenaModel/Model/C18Ctx.lean",
-                "LenaModel/Model/C18Spec.lean", "LenaModel/Model/C18Exc.lean", "LenaModel/Lemmas/C18.lean", "LenaModel/Lemmas/C18Split.lean",
+                "LenaModel/Model/C18Spec.lean", "LenaModel/Model/C18Exc.lean", "LenaModel/Model/C18Multi.lean", "LenaModel/Lemmas/C18.lean", "LenaModel/Lemmas/C18Split.lean",
                 "LenaModel/Props/C18.lean", "LenaModel/Props/C18Split.lean", "LenaModel/Props/C18Ctx.lean",
-                "LenaModel/Props/C18Spec.lean"]
+                "LenaModel/Props/C18Spec.lean", "LenaModel/Props/C18Multi.lean"]
 DRIVER = "drivers/C18.lean"
 THEOREMS = [
     # the theorems that carry the property (they fail for a model with the historical defects: rename on abort,
@@ -61,6 +70,12 @@ THEOREMS = [
     "Lena.C18.split_whole_eq_two_runs",
     "Lena.C18.split_whole_stores",
     "Lena.C18.split_bare_replay",
+    # a Split with several members of several types (adversary round): the rule for the buffer size looks at the
+    # Sequence members only, and every Cache of every Sequence member stores the whole flow
+    "Lena.C18.effBufsizeMembers_none",
+    "Lena.C18.effBufsizeTyped_none",
+    "Lena.C18.runStages_stores",
+    "Lena.C18.splitMulti_stores",
 ]
 # support: instances and restatements of the above, proof lemmas, lemmas about the model's own encodings, the
 # machine-checked counterexample for a rule /repo no longer has, and the decision lemmas for the executable vocabulary
@@ -91,6 +106,13 @@ AUX_THEOREMS = [
     "Lena.C18.modeOkB_iff",
     "Lena.C18.evAfterB_iff",
     "Lena.C18.storedByList_iff",
+    "Lena.C18.effBufsizeMembers_keep",
+    "Lena.C18.effBufsizeMembers_single",
+    "Lena.C18.effBufsizeTyped_all_seq",
+    "Lena.C18.runStages_fs_other",
+    "Lena.C18.splitMulti_outer_raises",
+    "Lena.C18.stagesOf_split",
+    "Lena.C18.stageIds_stagesOf",
 ]
 CASE_TIMEOUT = 10
 TRUSTED = [
@@ -107,7 +129,8 @@ TRUSTED = [
     "compared on every run operation",
     "JSON line protocol encoders (harness/props/c18.py, drivers/C18.lean)",
     "the transcription of Split.__init__ (buffer-size rule, lena.core.alter_sequence on the members) and Split.run for "
-    "one sequence/source member (Model/C18Split.lean), of Cache._set_context / LenaSequence._set_context / SetContext "
+    "one sequence/source member (Model/C18Split.lean), of Split.run with the whole flow in one buffer for several "
+    "members of type sequence / fill_compute / fill_request (Model/C18Multi.lean), of Cache._set_context / LenaSequence._set_context / SetContext "
     "for flat pipelines (Model/C18Ctx.lean), of Cache.__repr__ and the error branch of drop_cache (Model/C18Spec.lean), "
     "validated by the same correspondence check; the specification vocabulary of the theorems (Distinct, NoFilled, "
     "ModeOk, endOf, eraseCaches, EvAfter, StoredBy) is evaluated by the driver on every run and compared with Python",
@@ -128,14 +151,26 @@ ASSUMPTIONS = [
     "active at the same time on one cache file are outside the property's histories and are neither modelled nor "
     "generated (there the later run's os.replace fails with FileNotFoundError after it has yielded its whole flow; no "
     "truncated cache is stored or served)",
-    "Split: modelled for one member that is a Sequence (or a bare Cache) after arbitrary outer elements; the driver "
-    "predicts the buffer-size rule of /repo (7235571: a Sequence member with a Cache makes Split read the whole flow at "
-    "once) and nothing is read from the tree under test - reverting 7235571 gives correspondence disagreements and "
-    "oracle failures; the old rule is kept as effBufsize false only for the counterexample split_pinned_truncates.  Split fills its buffer from its own input "
+    "Split: modelled for one member that is a Sequence (or a bare Cache) after arbitrary outer elements, and - when the "
+    "Split reads the whole flow at once - for several members: Sequences / tuples with or without Caches, FillCompute and "
+    "FillRequest elements in any order (Model/C18Multi.lean; their fill is not an observable event, they yield one value). "
+    "The driver predicts the buffer-size rule of /repo (7235571: a Sequence member with a Cache makes Split read the whole "
+    "flow at once, whatever the types of the other members) and nothing is read from the tree under test - reverting or "
+    "narrowing the rule gives correspondence disagreements and oracle failures; the old rule is kept as effBufsize false "
+    "only for the counterexample split_pinned_truncates.  Split fills its buffer from its own input "
     "before it runs a member: the input of the Split is consumed even when the member replays a cache (Split's "
     "documented schedule, C03); an exception of the outer pipeline may therefore arrive before earlier values were "
-    "yielded - the oracle accepts a prefix there.  Members of type fill/compute, fill/request and several members "
-    "are C03's and not modelled here; a Split object keeps the hoisting decision it took when it was constructed",
+    "yielded - the oracle accepts a prefix there.  The oracle's reference for several members is Split's documented "
+    "schedule (per buffer every member in turn; FillCompute results at the end; everything once for an empty input) with "
+    "the whole flow in one buffer whenever a Sequence member holds a Cache.  Oracle only (not modelled): several members "
+    "with finite buffers (no Cache in a member; C03 models that schedule), a bare Cache beside other members, a nested "
+    "Split with a FillCompute member and a buffer size of its own (wrap msplit), a re-used Split whose bare Cache member "
+    "changed its filling state since the Split was made (a Split keeps the decision Source member / Sequence member it "
+    "took when it was constructed; the oracle follows that decision, a dropped cache then gives a loud "
+    "FileNotFoundError).  Members of type Source other than a hoisted Cache, FillComputeSeq / FillRequestSeq members "
+    "with a Cache inside (every request() / compute() is a run of its own through the Cache: the first is stored, the "
+    "later ones replay it - consistent with the statement, not a position 'in a pipeline'), elements after the Split "
+    "and copy_buf=False are not generated",
     "drop_cache() on a missing file raises FileNotFoundError although its docstring says 'pass otherwise': judged "
     "outside 'recompute=True and drop_cache() restore the first-run behaviour' (the first-run behaviour is there "
     "anyway); modelled as it is, not demanded by the oracle",
@@ -163,9 +198,22 @@ ASSUMPTIONS = [
     "runs eager elements (oracle only, not modelled): values, ends, storing and replay are checked for them, no-pull only "
     "in the hoisted modes",
     "one file-system instant per run: cache_exists (when run/alter_sequence is called), the open of _load_flow (first "
-    "pull) and the hoisting see the same file system; a kept hoisted Source called after drop_cache, or an operation "
+    "pull) and the hoisting see the same file system; a kept hoisted Source is called again only while its cache stays "
+    "filled (family O); calling it after drop_cache, or an operation "
     "between run() and the first next(), is not generated (FileNotFoundError there is loud); storedFlow's "
     "fileNotFound branch and nextBottom(load fresh) on a missing file are unreachable under cacheExists on the same fs",
+    "file names: a sixth of the enumerated and 15% of the random cases keep their cache files in directories (two "
+    "levels deep) that do not exist before the first Cache on them is constructed (Cache.__init__ creates them); "
+    "judgement: a Cache the unchanged code accepts is inside the quantifier, so a first run that cannot start is "
+    "reported (build-failed).  Templated names stay in one flat directory: a template with a directory part does not "
+    "work in /repo (notes/C18_observation_2.md: loud, outside the statement).  The oracle demands that a Cache whose "
+    "name is literal, or a template whose key the static context of THIS pipeline sets, uses that file - also when the "
+    "Cache object was formatted for another pipeline before (family O: one Sequence object in pipelines with "
+    "different contexts); which file a template without its key uses is not demanded (the model transcribes it)",
+    "object re-use: beside whole pipeline objects (E, random) the histories re-use a Split with a bare Cache member, a "
+    "Split with several members, one Sequence object (with its Cache objects) inside different pipelines, and the "
+    "object alter_sequence returned (a hoisted Source is called again); only histories in which the kept decision "
+    "agrees with what a new object would decide are sent to the model",
     "foreign files: an empty file at the cache name (an empty cache) and a stale temporary file of a killed process are "
     "generated (op plant); 'exists but unreadable' (os.access) is not (the harness runs as root)",
     "Split runs are not operations of `exec`: the history theorems (cache_complete, stored_cache_persists) range over "
@@ -184,7 +232,7 @@ RULE = ("quick and thorough: exhaustive families — A: one cache in 4 pipeline 
         "of either cache, drop of either cache, finalize) on M C0 M C1 M followed by a complete run; D: the 7 ways of "
         "calling (Source, Sequence.run, Cache.alter_sequence of a Sequence / of a Source, lena.core.alter_sequence, bare "
         "element through either) x every filling state x every nesting of a sub-Sequence. Value kinds (ints, pairs with "
-        "context, mixed, falsy/None) rotate over the cases. Plus 5000 (thorough 120000) seeded random histories: up to 6 "
+        "context, mixed, falsy/None) rotate over the cases. Plus 12000 (thorough 120000) seeded random histories: up to 6 "
         "operations, up to 3 caches and 3 map elements per pipeline, source length 0..6, pickle protocols 0-5. "
         "S: a Cache in a member of Split - 6 (outer, branch) shapes x source length 0..3 (thorough 0..5) x bufsize "
         "None/1/2/3 x every crash point, every nesting of sub-Sequences in the member, a bare Cache member filled or not; "
@@ -199,6 +247,19 @@ RULE = ("quick and thorough: exhaustive families — A: one cache in 4 pipeline 
         "value k (also before a Split); L: long flows (see ASSUMPTIONS); P: foreign files (empty cache file, stale "
         "temporary file); V: a Slice(k) element instead of the consumer's stop; G: eager elements (oracle only). Value "
         "kinds include 'mut': mutable values changed in place by every map element. "
+        "M: a Split with SEVERAL members (10 sets of Sequence / tuple / FillCompute / FillRequest members before and after "
+        "the main one, one or two of them with a Cache, or none) x 2 (outer, branch) shapes x source length 0..3 (thorough "
+        "0..4) x bufsize None/1/2 x every crash point, then a plain run and a replay through the same Split; a bare Cache "
+        "beside other members; nested Splits with a FillCompute member and their own bufsize=2 (wrap msplit); N also with "
+        "FillCompute / FillRequest members beside the tree at the top and in a nested Split; O: object re-use - a Split with "
+        "a (filled / unfilled) bare Cache member or with several members run again and again, the object returned by "
+        "alter_sequence kept and called again (3 modes x 6 shapes x filled or not, bare element), ONE Sequence object with "
+        "1-3 elements in the pipelines of different runs (4 segments x 5 modes x every crash point), one Sequence with a "
+        "templated Cache under SetContext(k, v1) / SetContext(k, v2) (3 value pairs x 3 segments x 3 first runs x 4 modes); "
+        "D and G: the sub-Sequence 1-3 Sequences deep (G: eager upstream elements, hoisting must find the Cache). A sixth of "
+        "the enumerated cases and 15% of the random ones keep the cache files in directories that do not exist yet; random "
+        "histories: 30% of the Splits get further members, a single-Cache branch is a bare member in 30%, 20% of the "
+        "histories share one Sequence object between their runs. "
         "Non-trivial: at least one run of the history yields a value.")
 
 MODES = ("source", "sequence", "hoist", "hoist_src", "meta", "bare_hoist", "bare_meta")
@@ -356,6 +417,36 @@ class _Map(object):
         return iter(list(_Map.run(self, flow)))
 
 
+class _Acc(object):
+    """a member of Split that is not a Sequence: an accumulator that is filled with the values of the flow and
+    yields one value, code 10 * (sum of the codes filled) + a"""
+
+    def __init__(self, spec, vk):
+        self.a, self.vk, self.s = spec["a"], vk, 0
+
+    def renew(self):
+        self.s = 0
+
+    def fill(self, val):
+        c = dec(val, self.vk)
+        self.s += c if type(c) is int else 10 ** 9
+
+    def _result(self):
+        yield enc(10 * self.s + self.a, self.vk)
+
+
+class _FC(_Acc):
+    """a FillCompute element"""
+    def compute(self):
+        return self._result()
+
+
+class _FR(_Acc):
+    """a FillRequest element (no reset between requests)"""
+    def request(self):
+        return self._result()
+
+
 # ----------------------------------------------------------------------------------------
 # running the real code
 
@@ -370,7 +461,10 @@ def _names(d, case):
     nb, V, tkeys = case.get("nb", nc), case.get("V", 0), case.get("tkeys", [])
     names = []
     for c in range(nc):
-        if c < nb:
+        if c < nb and case.get("dirs"):
+            # a directory (two levels deep) that does not exist before the first Cache on this file is made
+            names.append(os.path.join(d, "sub%d" % c, "x", "c%d.pkl" % c))
+        elif c < nb:
             names.append(os.path.join(d, "c%d.pkl" % c))
         else:
             t, r = divmod(c - nb, V + 1)
@@ -432,76 +526,160 @@ def _shape_key(op):
     crash points)"""
     def strip(els):
         return [{k: v for k, v in e.items() if k != "raise"} for e in els]
+    def strip_m(ms):
+        return [dict(m, els=strip(m["els"])) if m["k"] == "seq" else m for m in ms]
     if op["op"] == "splitrun":
-        return jdump(["split", strip(op["outer"]), strip(op["branch"]), op["bufsize"], bool(op.get("bare")), op.get("nest"), op.get("wrap")])
-    return jdump(["run", strip(op["els"]), op.get("mode", "source"), op.get("nest"),
+        return jdump(["split", strip(op["outer"]), strip(op["branch"]), op["bufsize"], bool(op.get("bare")), op.get("nest"),
+                      op.get("wrap"), strip_m(op.get("pre") or []), strip_m(op.get("post") or []), bool(op.get("default_bufsize"))])
+    return jdump(["run", strip(op["els"]), op.get("mode", "source"), op.get("nest"), op.get("share"), bool(op.get("keep")),
                   op["take"] if op.get("via") == "slice" else None])
 
 
-def _construct(op, names, vk, log, tmpl):
-    """build the pipeline of a run with the real lena classes; returns (start, caches, src, maps) where start()
+def _nested(els, nest):
+    """els with els[i:j] wrapped into `depth` nested Sequences (nest = [i, j] or [i, j, depth])"""
+    import lena.core
+    if not nest:
+        return els
+    i, j = nest[0], nest[1]
+    inner = lena.core.Sequence(*els[i:j])
+    for _ in range((nest[2] if len(nest) > 2 else 1) - 1):
+        inner = lena.core.Sequence(inner)
+    return els[:i] + [inner] + els[j:]
+
+
+def _member_specs(op):
+    """the members of the Split of a splitrun, in order: (kind, spec) with kind main | seq | fc | fr"""
+    return ([(m["k"], m) for m in op.get("pre") or []] + [("main", None)]
+            + [(m["k"], m) for m in op.get("post") or []])
+
+
+def _all_maps(op):
+    """the map specs of an operation in the order in which _construct makes the elements"""
+    if op["op"] != "splitrun":
+        return [e for e in op["els"] if e["k"] == "map"]
+    out = [e for e in op["outer"] if e["k"] == "map"]
+    for kind, m in _member_specs(op):
+        out += [e for e in (op["branch"] if kind == "main" else m.get("els", [])) if e["k"] == "map"]
+    return out
+
+
+def _construct(op, names, vk, log, tmpl, shared=None):
+    """build the pipeline of a run with the real lena classes; returns (start, caches, src, maps, accs) where start()
     puts the pipeline to work (calls alter_sequence where the mode says so) and returns the generator to consume"""
     import lena.core
     import lena.flow
     src = _Src(op["src"], vk, log)
-    caches, maps = [], []
+    caches, maps, accs = [], [], []
     if op["op"] == "splitrun":
         outer = _mk_els(op["outer"], 0, names, vk, log, caches, tmpl, maps)
         n_data = sum(1 for e in op["outer"] if e["k"] != "setctx")
-        branch = _mk_els(op["branch"], n_data, names, vk, log, caches, tmpl, maps)
-        if op.get("nest") and not op.get("bare"):
-            i, j = op["nest"]
-            branch = branch[:i] + [lena.core.Sequence(*branch[i:j])] + branch[j:]
-        member = branch[0] if op.get("bare") else lena.core.Sequence(*branch)
-        # the branch at depth d: wrapped into nested containers (each with this one child), outermost first
-        for kind in reversed(op.get("wrap") or []):
+        members = []
+        for kind, m in _member_specs(op):
+            if kind == "fc":
+                members.append(_FC(m, vk))
+                accs.append(members[-1])
+                continue
+            if kind == "fr":
+                members.append(_FR(m, vk))
+                accs.append(members[-1])
+                continue
             if kind == "seq":
-                member = lena.core.Sequence(member)
-            elif kind == "split":
-                member = lena.core.Split([member])
-            elif kind == "tsplit":
-                member = lena.core.Split([(member,)])
-            else:
-                raise ValueError(kind)
+                mels = _mk_els(m["els"], n_data, names, vk, log, caches, tmpl, maps)
+                n_data += sum(1 for e in m["els"] if e["k"] != "setctx")
+                members.append(tuple(mels) if m.get("tuple") else lena.core.Sequence(*mels))
+                continue
+            branch = _mk_els(op["branch"], n_data, names, vk, log, caches, tmpl, maps)
+            n_data += sum(1 for e in op["branch"] if e["k"] != "setctx")
+            if op.get("nest") and not op.get("bare"):
+                branch = _nested(branch, op["nest"])
+            member = branch[0] if op.get("bare") else lena.core.Sequence(*branch)
+            # the branch at depth d: wrapped into nested containers (each with this one child), outermost first
+            for wkind in reversed(op.get("wrap") or []):
+                if wkind == "seq":
+                    member = lena.core.Sequence(member)
+                elif wkind == "split":
+                    member = lena.core.Split([member])
+                elif wkind == "tsplit":
+                    member = lena.core.Split([(member,)])
+                elif wkind == "msplit":
+                    # a nested Split with a member of another type beside the one that holds the branch, and a
+                    # buffer size of its own
+                    accs.append(_FC({"a": 7}, vk))
+                    member = lena.core.Split([member, accs[-1]], bufsize=2)
+                else:
+                    raise ValueError(wkind)
+            members.append(member)
         if op.get("default_bufsize"):
-            sp = lena.core.Split([member])              # bufsize=1000
+            sp = lena.core.Split(members)              # bufsize=1000
         else:
-            sp = lena.core.Split([member], bufsize=op["bufsize"])
+            sp = lena.core.Split(members, bufsize=op["bufsize"])
         source = lena.core.Source(src, *(outer + [sp]))
-        return (lambda: source()), caches, src, maps
-    els = _mk_els(op["els"], 0, names, vk, log, caches, tmpl, maps)
+        return (lambda: source()), caches, src, maps, accs
+    share = op.get("share")
+    if share:
+        # els[i:j] are ONE Sequence object that all runs of the history with this key have in their pipelines
+        i, j, key = share
+        n_before = sum(1 for e in op["els"][:i] if e["k"] != "setctx")
+        n_in = sum(1 for e in op["els"][i:j] if e["k"] != "setctx")
+        before = _mk_els(op["els"][:i], 0, names, vk, log, caches, tmpl, maps)
+        if shared is not None and ("share", key) in shared:
+            seq_obj, s_caches, s_maps = shared[("share", key)]
+            data = [e for e in op["els"][i:j] if e["k"] != "setctx"]
+            for m, (pos, e) in zip(s_maps, [(pos, e) for pos, e in enumerate(data) if e["k"] == "map"]):
+                m.renew(e, log)
+                m.j = n_before + pos        # its number in THIS pipeline
+        else:
+            s_caches, s_maps = [], []
+            seq_obj = lena.core.Sequence(*_mk_els(op["els"][i:j], n_before, names, vk, log, s_caches, tmpl, s_maps))
+            if shared is not None:
+                shared[("share", key)] = (seq_obj, s_caches, s_maps)
+        caches.extend(s_caches)
+        maps.extend(s_maps)
+        after = _mk_els(op["els"][j:], n_before + n_in, names, vk, log, caches, tmpl, maps)
+        els = before + [seq_obj] + after
+    else:
+        els = _mk_els(op["els"], 0, names, vk, log, caches, tmpl, maps)
     if op.get("via") == "slice" and op["take"] is not None:
         els.append(lena.flow.Slice(op["take"]))         # downstream stops consuming: a real element ends the flow
     mode = op.get("mode", "source")
+    # with "keep" the object alter_sequence returned in the first run of this pipeline object is what later runs
+    # (marked "reuse") call again: a hoisted Source is kept, not made anew
+    keep, kept = bool(op.get("keep")), {}
     if mode in ("bare_hoist", "bare_meta"):
         el = els[0]
         def start_bare():
-            alt = lena.flow.Cache.alter_sequence(el) if mode == "bare_hoist" else lena.core.alter_sequence(el)
+            if not (keep and "alt" in kept):
+                kept["alt"] = lena.flow.Cache.alter_sequence(el) if mode == "bare_hoist" else lena.core.alter_sequence(el)
+            alt = kept["alt"]
             if isinstance(alt, lena.core.Source):
                 return alt()
             return alt.run(src())
-        return start_bare, caches, src, maps
-    nest = op.get("nest")
-    if nest:
-        i, j = nest
-        els = els[:i] + [lena.core.Sequence(*els[i:j])] + els[j:]
+        return start_bare, caches, src, maps, accs
+    if op.get("nest") and not share:
+        els = _nested(els, op["nest"])
     if mode == "source":
         source = lena.core.Source(src, *els)
-        return (lambda: source()), caches, src, maps
+        return (lambda: source()), caches, src, maps, accs
     if mode == "hoist_src":
         source = lena.core.Source(src, *els)
-        return (lambda: lena.flow.Cache.alter_sequence(source)()), caches, src, maps
+        def start_hoist_src():
+            if not (keep and "alt" in kept):
+                kept["alt"] = lena.flow.Cache.alter_sequence(source)
+            return kept["alt"]()
+        return start_hoist_src, caches, src, maps, accs
     seq = lena.core.Sequence(*els)
     def start_seq():
-        alt = seq
-        if mode == "hoist":
-            alt = lena.flow.Cache.alter_sequence(seq)
-        elif mode == "meta":
-            alt = lena.core.alter_sequence(seq)
+        if not (keep and "alt" in kept):
+            kept["alt"] = seq
+            if mode == "hoist":
+                kept["alt"] = lena.flow.Cache.alter_sequence(seq)
+            elif mode == "meta":
+                kept["alt"] = lena.core.alter_sequence(seq)
+        alt = kept["alt"]
         if isinstance(alt, lena.core.Source):
             return alt()
         return alt.run(src())
-    return start_seq, caches, src, maps
+    return start_seq, caches, src, maps, accs
 
 
 def _build(op, names, vk, log, caches=None, tmpl=None, built=None):
@@ -509,22 +687,24 @@ def _build(op, names, vk, log, caches=None, tmpl=None, built=None):
     again (same Cache, Sequence, Source, Split objects), otherwise new objects are made"""
     key = _shape_key(op)
     if op.get("reuse") and built is not None and key in built:
-        start, cs, src, maps = built[key]
+        start, cs, src, maps, accs = built[key]
         src.renew(op["src"], log)
-        specs = [e for e in (op["outer"] + op["branch"] if op["op"] == "splitrun" else op["els"]) if e["k"] == "map"]
-        for m, e in zip(maps, specs):
+        for m, e in zip(maps, _all_maps(op)):
             m.renew(e, log)
+        for a in accs:
+            a.renew()
     else:
-        start, cs, src, maps = _construct(op, names, vk, log, tmpl)
+        start, cs, src, maps, accs = _construct(op, names, vk, log, tmpl, built)
         if built is not None:
-            built[key] = (start, cs, src, maps)
+            built[key] = (start, cs, src, maps, accs)
     if caches is not None:
         caches.extend(cs)
     return start()
 
 
 def _tree_obj(t, d, counter, member=False):
-    """the real object of a container tree: "C" a Cache, "L" another element, {"seq"|"tuple"|"runif"|"split": [...]}"""
+    """the real object of a container tree: "C" a Cache, "L" another element, "FC" / "FR" a FillCompute / FillRequest
+    element (as a member of a Split: a member of another type), {"seq"|"tuple"|"runif"|"split": [...]}"""
     import lena.core
     import lena.flow
     if t == "C":
@@ -532,6 +712,10 @@ def _tree_obj(t, d, counter, member=False):
         return lena.flow.Cache(os.path.join(d, "rule%d.pkl" % counter[0]))
     if t == "L":
         return _Leaf()
+    if t == "FC":
+        return _FC({"a": 0}, "int")
+    if t == "FR":
+        return _FR({"a": 0}, "int")
     (kind, kids), = t.items()
     if kind == "split":
         return lena.core.Split([_tree_obj(k, d, counter, True) for k in kids])
@@ -562,7 +746,7 @@ def _bufrule(op, d):
 def _tree_has_cache(t):
     if t == "C":
         return True
-    if t == "L":
+    if t in ("L", "FC", "FR"):
         return False
     (kind, kids), = t.items()
     return any(_tree_has_cache(k) for k in kids)
@@ -647,6 +831,7 @@ def run_impl(case):
                 # a file that no run of the history made: an empty cache file, or the temporary file a killed
                 # process left behind (no `finally` ran)
                 ob = {}
+                os.makedirs(os.path.dirname(names[op["c"]]), exist_ok=True)
                 if op["what"] == "empty":
                     open(names[op["c"]], "wb").close()
                 else:
@@ -755,9 +940,36 @@ def _has_eager(case):
     return any(e.get("eager") for op in case["hist"] for e in op.get("els", []))
 
 
+def _multi(op):
+    return op["op"] == "splitrun" and bool(op.get("pre") or op.get("post"))
+
+
+def _member_has_cache(op):
+    """a member of type sequence of the Split of a splitrun holds a Cache (a bare Cache member counts: it is a Sequence
+    unless it is filled when the Split is made - then nothing in it needs the whole flow, and nothing is lost by it)"""
+    return any(e["k"] in ("cache", "tcache") for e in op["branch"]) or any(
+        e["k"] == "cache" for m in (op.get("pre") or []) + (op.get("post") or []) if m["k"] == "seq" for e in m["els"])
+
+
+def _modelled(case):
+    """pipelines with an element whose `run` is not lazy are outside the model (ASSUMPTIONS), and so are Splits with
+    several members that do not read the whole flow at once (C03 models their schedule), or whose main member is a
+    bare Cache: oracle only"""
+    if _has_eager(case) or case.get("nomodel"):
+        return False
+    for op in case["hist"]:
+        if "msplit" in (op.get("wrap") or []):
+            return False
+        if op.get("bare") and op.get("reuse") and op["op"] == "splitrun" and not case.get("bare_consistent"):
+            # a Split keeps the decision (Source member / Sequence member) it took for a bare Cache when it was made
+            return False
+        if _multi(op) and (op.get("bare") or op.get("wrap") or not (op["bufsize"] is None or _member_has_cache(op))):
+            return False
+    return True
+
+
 def model_requests(case):
-    # pipelines with an element whose `run` is not lazy are outside the model (ASSUMPTIONS): oracle only
-    return [] if _has_eager(case) else [case]
+    return [case] if _modelled(case) else []
 
 
 def compare(case, res, replies):
@@ -812,12 +1024,16 @@ def compare(case, res, replies):
 def oracle(case, res):
     nc = case["nc"]
     stored = [None] * nc          # the flow that the last complete storing run of cache c saw
+    made = {}                     # which caches were filled when the Split object of a (re-used) pipeline was made
     for i, (op, ob) in enumerate(zip(case["hist"], res["ops"])):
         where = f"op {i} {_show_op(op)}"
         maybe_dropped = set()
         if op["op"] == "run":
             if any(type(c) is not int for c in ob.get("ids", [])):
                 return f"cache-name: {where}: a Cache uses a file outside the names of the case: {ob.get('ids')}"
+            msg = _name_clause(case, where, _static_ids(case, op["els"])[0], ob.get("ids", []))
+            if msg:
+                return msg
             els = _resolved(op, ob.get("ids", []))
             (vals, exc), inputs, replay = _pipe_flow(stored, op["src"], els)
             hoisted = op.get("mode", "source") in ("hoist", "hoist_src", "bare_hoist", "bare_meta")
@@ -881,9 +1097,22 @@ def oracle(case, res):
                 return f"cache-name: {where}: a Cache uses a file outside the names of the case: {ob.get('ids')}"
             if ob["end"].startswith("build:"):
                 return f"build-failed: {where}: putting the pipeline together raised {ob['end'][6:]}"
-            outer = _resolved(op, ob.get("ids", []), "outer")
-            branch = _resolved(op, ob.get("ids", []), "branch", sum(1 for e in outer if e["k"] == "cache"))
-            msg, maybe_dropped = _two_phase(where, stored, op["src"], outer, branch, ob, op["take"])
+            msg = _name_clause(case, where, _split_static_ids(case, op), ob.get("ids", []))
+            if msg:
+                return msg
+            if _multi(op) or op.get("bare"):
+                # a Split object decides when it is made whether a bare Cache member is a Source (filled) or a Sequence
+                key = _shape_key(op)
+                if not (op.get("reuse") and key in made):
+                    made[key] = [x is not None for x in stored]
+                outer, members = _members_resolved(op, ob.get("ids", []))
+                msg, maybe_dropped = _multi_phase(where, stored, op["src"], outer, members, op["bufsize"], ob, op["take"],
+                                                  made[key])
+            else:
+                outer = _resolved(op, ob.get("ids", []), "outer")
+                branch = _resolved(op, ob.get("ids", []), "branch", sum(1 for e in outer if e["k"] == "cache"))
+                msg, maybe_dropped = _two_phase(where, stored, op["src"], outer, branch, ob, op["take"],
+                                                n_tail=sum(1 for w in op.get("wrap") or [] if w == "msplit"))
             if msg:
                 return msg
         elif op["op"] == "plant":
@@ -920,13 +1149,41 @@ def oracle(case, res):
     return None
 
 
-def _two_phase(where, stored, src, outer, branch, ob, k, check_outer_pull=True):
+def _name_clause(case, where, expected, observed):
+    """a Cache whose file name is given literally, or is a template whose key the static context of the pipeline
+    sets, uses that file (whatever the Cache object was used for before); what a template without its key uses is
+    not demanded"""
+    nb, V = case.get("nb", case["nc"]), case.get("V", 0)
+    for i, (e, o) in enumerate(zip(expected, observed)):
+        if e != o and (e < nb or (e - nb) % (V + 1) != 0):
+            return (f"cache-name: {where}: the {i}-th Cache of the pipeline should use file {e} (its name under the "
+                    f"static context of this pipeline), it uses file {o}: it would store or replay another flow")
+    if len(expected) != len(observed):
+        return f"cache-name: {where}: the pipeline has {len(expected)} Cache elements, observed files {observed}"
+    return None
+
+
+def _split_static_ids(case, op):
+    o_ids, ctx = _static_ids(case, op["outer"])
+    ids = list(o_ids)
+    for kind, m in _member_specs(op):
+        if kind == "main":
+            ids += _static_ids(case, op["branch"], ctx)[0]
+        elif kind == "seq":
+            ids += _static_ids(case, m["els"], ctx)[0]
+    return ids
+
+
+def _two_phase(where, stored, src, outer, branch, ob, k, check_outer_pull=True, n_tail=0):
     """the statement for a pipeline whose first part (`outer`) is pulled ahead of what the second part yields;
     updates `stored`, returns (failure message or None, caches an interrupted recomputation may have dropped)"""
     m = len(outer)
     end = ob["end"][6:] if ob["end"].startswith("build:") else ob["end"]
     (o_vals, o_exc), o_inputs, o_replay = _pipe_flow(stored, src, outer)
     (vals, exc), b_inputs, b_replay = _pipe_flow(stored, {"vals": o_vals, "raise": None}, branch)
+    if exc is None:
+        # every enclosing Split with a FillCompute member beside the branch (wrap "msplit") adds that member's result
+        vals = vals + [10 * sum(o_vals) + 7] * n_tail
     for ev in ob["ev"]:
         if check_outer_pull and o_replay is not None and (_ev_src(ev) or _ev_j(ev) < o_replay):
             return (f"upstream-pulled: {where}: cache {outer[o_replay]['c']} is filled, but the run pulled "
@@ -959,6 +1216,131 @@ def _two_phase(where, stored, src, outer, branch, ob, k, check_outer_pull=True):
     return None, maybe_dropped
 
 
+def _members_resolved(op, ids):
+    """the outer elements and the members [(kind, elements or spec, number of the first element)] of the Split of a
+    splitrun, kind = seq | bare (a bare Cache) | fc | fr, with the cache files as observed"""
+    outer = _resolved(op, ids, "outer")
+    skip = sum(1 for e in outer if e["k"] == "cache")
+    j0, out = len(outer), []
+    for kind, m in _member_specs(op):
+        if kind in ("fc", "fr"):
+            out.append((kind, m, None))
+            continue
+        els = _resolved(op, ids, "branch", skip) if kind == "main" else [dict(e) for e in m["els"]]
+        skip += sum(1 for e in els if e["k"] == "cache")
+        out.append(("bare" if kind == "main" and op.get("bare") else "seq", els, j0))
+        j0 += len(els)
+    return outer, out
+
+
+def _split_ref(stored, o_vals, members, bufsize, filled_when_made):
+    """what Split(members, bufsize).run yields for the input o_vals by Split's documented schedule (for every buffer
+    every member in turn: a Sequence is run on the buffer, a FillRequest is filled and requested, a FillCompute is
+    filled; a Source member yields its flow once; FillCompute members compute at the end; everything is run once
+    for an empty input) WHEN every Sequence member that holds a Cache is given the whole flow in one buffer - the
+    statement read for a Cache in a Split.  Returns (values, exception, {cache: flow that enters it}, [(j0, r)] for
+    the members that replay their r-th element)"""
+    def is_src(kind, x):
+        return kind == "bare" and filled_when_made[x[0]["c"]] and not x[0]["rc"]
+    def src_flow(x):
+        # the Source member loads whatever the file holds now; without a file that is a (loud) FileNotFoundError
+        c = x[0]["c"]
+        if stored[c] is None:
+            return "Other:FileNotFoundError"
+        out.extend(stored[c])
+        return None
+    whole = bufsize is None or any(kind in ("seq", "bare") and not is_src(kind, x) and any(e["k"] == "cache" for e in x)
+                                   for kind, x, _ in members)
+    bufs = [o_vals] if whole else [o_vals[i:i + bufsize] for i in range(0, len(o_vals), bufsize)]
+    bufs = [b for b in bufs if b]
+    out, inputs, replays, sums, done = [], {}, [], [0] * len(members), set()
+    def run_seq(x, j0, buf):
+        (v, exc), inp, rep = _pipe_flow(stored, {"vals": buf, "raise": None}, x)
+        out.extend(v)
+        inputs.update(inp)
+        if rep is not None:
+            replays.append((j0, rep))
+        return exc
+    for buf in bufs:
+        for i, (kind, x, j0) in enumerate(members):
+            if is_src(kind, x):
+                if i not in done:
+                    done.add(i)
+                    exc = src_flow(x)
+                    if exc is not None:
+                        return out, exc, inputs, replays
+            elif kind in ("seq", "bare"):
+                exc = run_seq(x, j0, buf)
+                if exc is not None:
+                    return out, exc, inputs, replays
+            else:
+                sums[i] += sum(buf)
+                if kind == "fr":
+                    out.append(10 * sums[i] + x["a"])
+    for i, (kind, x, j0) in enumerate(members):
+        if is_src(kind, x):
+            if i not in done:
+                exc = src_flow(x)
+                if exc is not None:
+                    return out, exc, inputs, replays
+        elif kind == "fc":
+            out.append(10 * sums[i] + x["a"])
+        elif kind == "fr":
+            if not bufs:
+                out.append(x["a"])
+        elif not bufs:
+            exc = run_seq(x, j0, [])
+            if exc is not None:
+                return out, exc, inputs, replays
+    return out, None, inputs, replays
+
+
+def _multi_phase(where, stored, src, outer, members, bufsize, ob, k, filled_when_made):
+    """the statement for Source(src, *outer, Split(members, bufsize)): like _two_phase, the second part being the
+    members of the Split on the values of the outer flow"""
+    end = ob["end"]
+    (o_vals, o_exc), o_inputs, o_replay = _pipe_flow(stored, src, outer)
+    vals, exc, b_inputs, replays = _split_ref(stored, o_vals, members, bufsize, filled_when_made)
+    for ev in ob["ev"]:
+        if o_replay is not None and (_ev_src(ev) or _ev_j(ev) < o_replay):
+            return (f"upstream-pulled: {where}: cache {outer[o_replay]['c']} is filled, but the run pulled "
+                    f"from upstream of it (event {ev})"), set()
+        for j0, r in replays:
+            if not _ev_src(ev) and j0 <= _ev_j(ev) < j0 + r:
+                return (f"upstream-ran: {where}: element {j0 + r} (a Cache in a member of the Split) is filled, but "
+                        f"element {_ev_j(ev)} upstream of it in the member processed a value"), set()
+    if ob["out"] != vals[:len(ob["out"])]:
+        return (f"flow-altered: {where}: with the whole flow through every member that holds a Cache the run yields "
+                f"{vals}, it yielded {ob['out']} (end {ob['end']})"), set()
+    every = list(o_inputs.items()) + list(b_inputs.items())
+    if end == "exhausted":
+        if exc is not None or o_exc is not None or ob["out"] != vals:
+            return (f"end-differs: {where}: the run ended normally after {ob['out']}, the flow is {vals} "
+                    f"ending with {exc or o_exc}"), set()
+        for c, fl in every:
+            stored[c] = list(fl[0])
+        return None, set()
+    if end == "stopped":
+        if k is None or len(ob["out"]) != k:
+            return f"end-differs: {where}: the consumer was stopped after {len(ob['out'])} values, take={k}", set()
+    elif end not in (exc, o_exc):
+        return (f"end-differs: {where}: the run ended with {ob['end']}; the flow {vals} ends with {exc} "
+                f"(first part: {o_exc})"), set()
+    maybe_dropped = {c for c, _ in every if stored[c] is not None}
+    # a part of the pipeline may have been run to its normal end before the run was interrupted: a complete run
+    # through its caches
+    for c, fl in every:
+        if fl[1] is None and (c not in o_inputs or o_exc is None) and ob["fs"][c]["final"] == list(fl[0]):
+            stored[c] = list(fl[0])
+    return None, maybe_dropped
+
+
+def _show_member(m):
+    if m["k"] == "seq":
+        return ("(%s)" if m.get("tuple") else "Sequence(%s)") % _show_els(m["els"])
+    return "%s%d" % (m["k"].upper(), m["a"])
+
+
 def _show_el(e):
     if e["k"] == "map":
         return "M%d%s%s%s" % (e["a"], "e" if e.get("eager") else "", "" if e["raise"] is None else "!%d" % e["raise"],
@@ -981,6 +1363,8 @@ def _show_els(els):
 def _show_op(op):
     if op["op"] == "splitrun":
         member = _show_els(op["branch"]) if op.get("bare") else f"Sequence({_show_els(op['branch'])})"
+        member = ", ".join([_show_member(m) for m in op.get("pre") or []] + [member]
+                           + [_show_member(m) for m in op.get("post") or []])
         return (f"splitrun[src={op['src']['vals']}" + ("" if op["src"]["raise"] is None else f"!{op['src']['raise']}")
                 + f" outer={_show_els(op['outer'])} Split([{member}], bufsize={op['bufsize']})"
                 + (f" nest={op['nest']}" if op.get("nest") else "") + (f" wrap={op['wrap']}" if op.get("wrap") else "")
@@ -992,6 +1376,7 @@ def _show_op(op):
             + ("" if op["src"]["raise"] is None else f"!{op['src']['raise']}")
             + ("" if op["src"].get("rk", "exc") == "exc" else f"({op['src']['rk']})")
             + (" via=Slice" if op.get("via") == "slice" else "")
+            + (f" nest={op['nest']}" if op.get("nest") else "") + (f" share={op['share']}" if op.get("share") else "")
             + f" els={els} take={op['take']} {op.get('fin', 'close')}]")
 
 
@@ -1004,17 +1389,25 @@ def signature(case, failure):
 
 
 def classify(case, res):
-    labels = ["family:" + case.get("fam", "?"), "vk:" + case.get("vk", "int")]
+    labels = ["family:" + case.get("fam", "?"), "vk:" + case.get("vk", "int"), "names:" + ("subdirs" if case.get("dirs") else "flat"),
+              "model:" + ("yes" if _modelled(case) else "oracle-only")]
     for op, ob in zip(case["hist"], res["ops"]):
         if op["op"] == "run":
             labels.append("run-end:" + ob["end"] + ("+leak" if op.get("fin") == "leak" and ob["end"] != "exhausted" else ""))
             labels.append("run-mode:" + op.get("mode", "source"))
             labels.append("run:" + ("no-source-event" if not any(_ev_src(e) for e in ob["ev"]) else "from-source"))
             labels.append("take:" + ("all" if op["take"] is None else "k"))
+            if op.get("share"):
+                labels.append("run:shared-sub-sequence")
+            if op.get("nest"):
+                labels.append("nest-depth:%d" % (op["nest"][2] if len(op["nest"]) > 2 else 1))
         elif op["op"] == "bufrule":
             labels.append("bufrule:" + ("whole" if ob["none"] else "buffered"))
         elif op["op"] == "splitrun":
             labels.append("split-depth:%d" % len(op.get("wrap") or []))
+            labels.append("split-members:" + "+".join(sorted(set(k for k, _ in _member_specs(op)))) + ("+bare" if op.get("bare") else ""))
+            if op.get("reuse"):
+                labels.append("split-reuse:" + ("bare" if op.get("bare") else "seq"))
             labels.append("split-end:" + ob["end"])
             labels.append("split-bufsize:" + ("None" if op["bufsize"] is None else "n"))
         else:
@@ -1045,8 +1438,9 @@ def _well_formed(case):
         if op["op"] == "run":
             ids = _static_ids(case, op["els"])[0]
         elif op["op"] == "splitrun":
-            o_ids, ctx = _static_ids(case, op["outer"])
-            ids = o_ids + _static_ids(case, op["branch"], ctx)[0]
+            ids = _split_static_ids(case, op)
+            if op.get("bare") and not (op["branch"] and op["branch"][0]["k"] == "cache"):
+                return False
         else:
             continue
         if len(set(ids)) != len(ids) or any(c >= case["nc"] for c in ids):
@@ -1066,6 +1460,8 @@ def _shrink(case):
         yield dict(case, hist=hist[:i] + hist[i + 1:])
     if case.get("vk", "int") != "int":
         yield dict(case, vk="int")
+    if case.get("dirs"):
+        yield dict(case, dirs=False)
     for i, op in enumerate(hist):
         if op["op"] == "splitrun":
             def rep2(**kw):
@@ -1084,6 +1480,10 @@ def _shrink(case):
                 yield rep2(take=None)
             if op.get("nest"):
                 yield rep2(nest=None)
+            for part in ("pre", "post"):
+                ms = op.get(part) or []
+                for j in range(len(ms)):
+                    yield rep2(**{part: ms[:j] + ms[j + 1:]})
             if op.get("wrap"):
                 yield rep2(wrap=op["wrap"][1:])
                 yield rep2(wrap=op["wrap"][:-1])
@@ -1093,13 +1493,15 @@ def _shrink(case):
             return dict(case, hist=hist[:i] + [dict(op, **kw)] + hist[i + 1:])
         if op.get("nest"):
             yield rep(nest=None)
+            if len(op["nest"]) > 2 and op["nest"][2] > 1:
+                yield rep(nest=[op["nest"][0], op["nest"][1], op["nest"][2] - 1])
         if op.get("mode", "source") not in ("source", "bare_hoist", "bare_meta"):
             yield rep(mode="source")
         if op["src"]["vals"]:
             yield rep(src=dict(op["src"], vals=op["src"]["vals"][:-1]))
         if op["src"]["raise"] is not None:
             yield rep(src=dict(op["src"], **{"raise": None}))
-        if not op.get("nest") and op.get("mode", "source") not in ("bare_hoist", "bare_meta"):
+        if not op.get("nest") and not op.get("share") and op.get("mode", "source") not in ("bare_hoist", "bare_meta"):
             for j in range(len(op["els"])):
                 yield rep(els=op["els"][:j] + op["els"][j + 1:])
         for j, e in enumerate(op["els"]):
@@ -1229,6 +1631,11 @@ def _family_d():
                     for take in (None, 1):
                         yield {"nc": nc, "fam": "D", "hist": pre + [R(_vals(0, 3), shape, mode=mode, nest=nest, take=take),
                                                                     R(_vals(1, 2), shape, mode=mode, nest=nest)]}
+                    # the sub-Sequence two and three Sequences deep
+                    if nest:
+                        for depth in (2, 3):
+                            yield {"nc": nc, "fam": "D", "hist": pre + [R(_vals(0, 3), shape, mode=mode, nest=nest + [depth]),
+                                                                        R(_vals(1, 2), shape, mode=mode, nest=nest + [depth])]}
     for filled in (False, True):
         for mode in ("bare_hoist", "bare_meta"):
             for rcf in (False, True):
@@ -1247,10 +1654,10 @@ _SPLIT_SHAPES = [([], [C(0)]), ([M(1)], [C(0)]), ([], [M(1), C(0), M(2)]), ([M(1
                  ([C(1)], [M(2), C(0)]), ([M(3)], [M(1)])]
 
 
-def _split_variants(outer, branch, n, bufsize, run=0, bare=False):
+def _split_variants(outer, branch, n, bufsize, run=0, bare=False, fins=("close", "leak")):
     vals = _vals(run, n)
     yield SR(vals, outer, branch, bufsize, bare=bare)
-    for fin in ("close", "leak"):
+    for fin in fins:
         for k in range(n + 1):
             yield SR(vals, outer, branch, bufsize, take=k, fin=fin, bare=bare)
         for k in range(n + 1):
@@ -1315,6 +1722,130 @@ def _family_e(ns):
                                                       dict(SR(_vals(2, 2), outer, branch, 2), reuse=True)]}
 
 
+def FCm(a):
+    return {"k": "fc", "a": a}
+
+
+def FRm(a):
+    return {"k": "fr", "a": a}
+
+
+def SQm(els, tup=False):
+    return {"k": "seq", "els": [dict(e) for e in els], "tuple": tup}
+
+
+_MEMBER_SETS = [([FCm(5)], []), ([], [FCm(5)]), ([FRm(6)], []), ([], [FRm(6)]), ([SQm([M(4)])], []), ([], [SQm([M(4)])]),
+                ([FCm(5)], [FRm(6), SQm([M(4)])]), ([SQm([C(1)])], []), ([SQm([M(4), C(1)], True)], [FCm(5)]),
+                ([FRm(6)], [SQm([C(1), M(4)])])]
+
+
+def _mem(op, pre, post):
+    return dict(op, pre=[dict(m) for m in pre], post=[dict(m) for m in post])
+
+
+def _family_m(ns, quick):
+    """a Split with SEVERAL members of several types (Sequence, tuple, FillCompute, FillRequest) one or two of which
+    hold a Cache: every buffer size x every crash point, then a plain run of the main member's elements and a replay
+    through the same Split; a Cache only in a member beside the main one; no Cache in any member; a bare Cache"""
+    fins = ("close", "leak")
+    for pre, post in _MEMBER_SETS:
+        for outer, branch in (([], [C(0)]), ([M(3)], [M(1), C(0), M(2)])):
+            for n in ns:
+                for bufsize in (None, 1, 2):
+                    for r1 in _split_variants(outer, branch, n, bufsize, fins=fins):
+                        yield {"nc": 2, "fam": "M", "hist": [_mem(r1, pre, post), R(_vals(1, 2), outer + branch, mode="sequence"),
+                                                             _mem(SR(_vals(2, 3), outer, branch, bufsize), pre, post)]}
+    # the Cache in a member beside the main one, which has none
+    for pre, post in (([SQm([M(4), C(0)])], [FCm(5)]), ([FRm(6)], [SQm([C(0)], True)]), ([SQm([C(0)]), SQm([C(1), M(4)])], [])):
+        for n in ns:
+            for bufsize in (None, 2):
+                for r1 in _split_variants([M(3)], [M(1)], n, bufsize, fins=fins):
+                    yield {"nc": 2, "fam": "M", "hist": [_mem(r1, pre, post), _mem(SR(_vals(1, 3), [M(3)], [M(1)], bufsize), pre, post),
+                                                         R(_vals(2, 2), [M(3), M(4), C(0)])]}
+    # no Cache in any member: the Split keeps its buffers (oracle only); a Cache before the Split
+    for n in ns:
+        for bufsize in (1, 2):
+            for r1 in (SR(_vals(0, n), [C(0)], [M(1)], bufsize), SR(_vals(0, n), [C(0)], [M(1)], bufsize, take=1),
+                       SR(_vals(0, n), [C(0)], [M(1)], bufsize, sraise=n)):
+                yield {"nc": 1, "fam": "M", "hist": [_mem(r1, [FCm(5)], [FRm(6)]),
+                                                     _mem(SR(_vals(1, 3), [C(0)], [M(1)], bufsize), [FCm(5)], [FRm(6)])]}
+    # a bare Cache beside members of other types: a Source member when it is filled (oracle only)
+    for filled in (False, True):
+        for pre, post in (([FCm(5)], []), ([], [FRm(6), SQm([M(4)])])):
+            for bufsize in (None, 2):
+                for take in (None, 1, 3):
+                    first = [R(_vals(3, 2), [C(0)])] if filled else []
+                    yield {"nc": 1, "fam": "M", "hist": first + [
+                        _mem(SR(_vals(0, 3), [M(3)], [C(0)], bufsize, take=take, bare=True), pre, post),
+                        _mem(SR(_vals(1, 2), [M(3)], [C(0)], bufsize, bare=True), pre, post), R(_vals(2, 1), [C(0)])]}
+    # the Cache in a nested Split that has a member of another type and a buffer size of its own (wrap "msplit")
+    for wrap in (["msplit"], ["seq", "msplit"], ["msplit", "msplit"], ["split", "msplit"], ["msplit", "tsplit"]):
+        for outer, branch in (([], [C(0)]), ([M(1)], [M(2), C(0), M(3)])):
+            for bufsize in (None, 2):
+                for r1 in (SR(_vals(0, 5), outer, branch, bufsize), SR(_vals(0, 5), outer, branch, bufsize, take=3, fin="leak"),
+                           SR(_vals(0, 0), outer, branch, bufsize), SR(_vals(0, 4), outer, branch, bufsize, sraise=3)):
+                    yield {"nc": 1, "fam": "M", "hist": [dict(r1, wrap=wrap), dict(SR(_vals(1, 3), outer, branch, bufsize), wrap=wrap),
+                                                         R(_vals(2, 2), outer + branch)]}
+
+
+def _family_o():
+    """object re-use beyond one pipeline shape: (1) a Split whose member is a bare Cache that was filled when the Split
+    was made (a Source member), run again and again; made before the cache was filled (a Sequence member, oracle
+    only); a Split with several members run again; (2) ONE Sequence object with a Cache in the pipelines of different
+    runs; (3) one Sequence object with a Cache named by a template of the static context in pipelines with different
+    contexts"""
+    for outer in ([], [M(1)], [C(1)]):
+        for bufsize in (None, 2):
+            for take in (None, 1):
+                b = lambda run, n, **kw: dict(SR(_vals(run, n), outer, [C(0)], bufsize, bare=True, **kw), reuse=True)
+                yield {"nc": 2, "fam": "O", "bare_consistent": True, "hist": [R(_vals(3, 3), [C(0)]), b(0, 3, take=take), b(1, 2), b(2, 4, take=2, fin="leak"),
+                                                     b(4, 1), FINALIZE, R(_vals(5, 1), [C(0)])]}
+                yield {"nc": 2, "fam": "O", "nomodel": True, "hist": [b(0, 3, take=take), b(1, 2), b(2, 4), DROP(0), b(4, 2), b(5, 1)]}
+    for pre, post in _MEMBER_SETS:
+        for bufsize in (None, 2):
+            m = lambda run, n, **kw: dict(_mem(SR(_vals(run, n), [M(3)], [M(1), C(0)], bufsize, **kw), pre, post), reuse=True)
+            yield {"nc": 2, "fam": "O", "hist": [m(0, 3), m(1, 2), DROP(0), m(2, 2, take=1), m(3, 3), m(4, 1)]}
+    # (1b) the object alter_sequence returned (a Source when the cache was filled) is kept and called again
+    for shape in _SHAPES1 + _SHAPES2[:2]:
+        nc = 1 + max(e["c"] for e in shape if e["k"] == "cache")
+        last = [e["c"] for e in shape if e["k"] == "cache"][-1]
+        for mode in ("hoist", "hoist_src", "meta"):
+            for filled in (False, True):
+                first = [R(_vals(5, 3), [C(last)])] if filled else []
+                k = lambda run, n, **kw: dict(R(_vals(run, n), shape, mode=mode, **kw), reuse=True, keep=True)
+                yield {"nc": nc, "fam": "O", "hist": first + [k(0, 3), k(1, 2), k(2, 3, take=1, fin="leak"), k(3, 1), FINALIZE,
+                                                               R(_vals(4, 2), shape)]}
+    for mode in ("bare_hoist", "bare_meta"):
+        k = lambda run, n, **kw: dict(R(_vals(run, n), [C(0)], mode=mode, **kw), reuse=True, keep=True)
+        yield {"nc": 1, "fam": "O", "hist": [R(_vals(5, 3), [C(0)]), k(0, 3), k(1, 2, take=1), k(2, 1)]}
+        yield {"nc": 1, "fam": "O", "hist": [k(0, 3), k(1, 2, take=1), k(2, 1), DROP(0), k(3, 2), k(4, 1)]}
+    # (2) els[i:j] of every run are one object
+    for shape, (i, j) in (([M(1), C(0), M(2)], (1, 2)), ([M(1), C(0), M(2)], (0, 2)), ([C(0), M(2), C(1)], (0, 3)),
+                          ([M(1), C(0), M(2), C(1), M(3)], (1, 4))):
+        nc = 1 + max(e["c"] for e in shape if e["k"] == "cache")
+        for mode in ("source", "sequence", "hoist", "hoist_src", "meta"):
+            for r1 in _crash_variants(shape, 2, fins=("close",)):
+                # the second pipeline has other elements around the shared Sequence
+                shape2 = [M(5)] + shape + [M(6)]
+                hist = [dict(r1, mode=mode, share=[i, j, 0]), dict(R(_vals(1, 3), shape2, mode=mode), share=[i + 1, j + 1, 0]),
+                        dict(R(_vals(2, 2), shape, mode=mode), share=[i, j, 0]), DROP(0),
+                        dict(R(_vals(3, 2), shape2), share=[i + 1, j + 1, 0]), dict(R(_vals(4, 1), shape, mode=mode), share=[i, j, 0])]
+                yield {"nc": nc, "fam": "O", "hist": hist}
+    # (3) a templated name: the same Sequence(Cache("t0_{{k0}}.pkl")) under SetContext(k0, v1) and SetContext(k0, v2)
+    base = {"nc": 7, "nb": 1, "V": 2, "tkeys": [0, 1], "fam": "O"}
+    for v1, v2 in ((0, 1), (1, 0), (0, 0)):
+        for i, j in ((2, 3), (1, 3), (2, 4)):
+            p = lambda v: [SET(0, v), M(1), TC(0, 0), M(2)]
+            for first in (R(_vals(0, 3), p(v1)), R(_vals(0, 3), p(v1), take=2, fin="leak"), R(_vals(0, 3), p(v1), sraise=1)):
+                for mode in ("source", "sequence", "hoist", "hoist_src"):
+                    sh = lambda op: dict(op, share=[i, j, 0])
+                    hist = [sh(first), sh(R(_vals(1, 2), p(v2), mode=mode)), FINALIZE, sh(R(_vals(2, 2), p(v1), mode=mode)),
+                            sh(R(_vals(3, 1), p(v2), mode=mode)), REPR(1), REPR(2), REPR(3)]
+                    yield dict(base, hist=hist)
+    # ... and in a member of Split: the static context of the outer elements reaches the shared branch
+    # (a Split is made anew for every run; its member objects are not shared: covered by X)
+
+
 def _chains(kinds, depth):
     for d in range(depth + 1):
         for ch in itertools.product(kinds, repeat=d):
@@ -1339,7 +1870,11 @@ def _family_n():
                     t = {kind: kids}
                 for bufsize in (2, None):
                     yield {"nc": 1, "fam": "N", "hist": [{"op": "bufrule", "members": [t], "bufsize": bufsize},
-                                                         {"op": "bufrule", "members": [{"seq": ["L"]}, t], "bufsize": bufsize}]}
+                                                         {"op": "bufrule", "members": [{"seq": ["L"]}, t], "bufsize": bufsize},
+                                                         # beside members of other types (FillCompute, FillRequest)
+                                                         {"op": "bufrule", "members": ["FC", t], "bufsize": bufsize},
+                                                         {"op": "bufrule", "members": [t, "FR", {"seq": ["L"]}], "bufsize": bufsize},
+                                                         {"op": "bufrule", "members": ["FR", {"split": ["FC", t]}], "bufsize": bufsize}]}
     # (b) runs: the branch wrapped into 1..3 nested Sequences / Splits / Splits with a tuple member, outer buffer
     #     smaller than the flow
     for wrap in _chains(("seq", "split", "tsplit"), 3):
@@ -1445,6 +1980,17 @@ def _family_g():
             for mode in ("source", "sequence", "hoist", "hoist_src"):
                 yield {"nc": nc, "fam": "G", "hist": [dict(r1, mode=mode), R(_vals(1, 3), shape, mode=mode),
                                                       R(_vals(2, 2), shape, mode=mode), DROP(0), R(_vals(3, 2), shape, mode=mode)]}
+        # the Cache (alone, or with its neighbours) one to three Sequences deep: hoisting must find it
+        ic = [j for j, e in enumerate(shape) if e["k"] == "cache"]
+        for i, j in sorted(set([(ic[0], ic[0] + 1), (ic[-1], ic[-1] + 1), (max(ic[0] - 1, 0), ic[0] + 1), (ic[0], len(shape))])):
+            if (i, j) == (0, len(shape)):
+                continue
+            for depth in (1, 2, 3):
+                for mode in ("sequence", "hoist", "hoist_src"):
+                    for r1 in (R(_vals(0, 2), shape), R(_vals(0, 2), shape, take=1)):
+                        nest = [i, j, depth]
+                        yield {"nc": nc, "fam": "G", "hist": [dict(r1, mode=mode, nest=nest), R(_vals(1, 3), shape, mode=mode, nest=nest),
+                                                              R(_vals(2, 2), shape, mode=mode, nest=nest)]}
 
 
 def _random_case(rng):
@@ -1500,6 +2046,25 @@ def _random_case(rng):
                                sraise=sraise))
                 if rk != "exc":
                     hist[-1]["src"]["rk"] = rk
+                if len(branch) == 1 and branch[0]["k"] == "cache" and rng.random() < 0.3:
+                    hist[-1]["bare"] = True
+                if branch and rng.random() < 0.3:
+                    # further members of the Split: of other types, Sequences and tuples with or without a Cache
+                    free = [c for c in range(nc) if c not in ids]
+                    def member():
+                        r = rng.random()
+                        if r < 0.35:
+                            return FCm(rng.randint(0, 9))
+                        if r < 0.6:
+                            return FRm(rng.randint(0, 9))
+                        mels = [M(rng.randint(1, 9)) for _ in range(rng.randint(0, 2))]
+                        if free and rng.random() < 0.5:
+                            mels.insert(rng.randint(0, len(mels)), dict(C(free.pop()), proto=rng.randint(0, 5), method="pickle"))
+                        return SQm(mels or [M(1)], rng.random() < 0.3)
+                    hist[-1]["pre"] = [member() for _ in range(rng.randint(0, 2))]
+                    hist[-1]["post"] = [member() for _ in range(rng.randint(0, 2))]
+                if not branch:
+                    hist[-1]["branch"] = [M(1)]
                 continue
             via = "slice" if (take is not None and mode not in MODES[5:] and rng.random() < 0.3) else None
             hist.append(R(vals, els, take=take, fin="close" if via else rng.choice(["close", "leak"]), mode=mode,
@@ -1511,15 +2076,37 @@ def _random_case(rng):
             p = rng.choice(prev)
             if hist[i].get("via") or p.get("via"):
                 continue
-            for f in ("els", "mode", "nest", "outer", "branch", "bufsize", "bare"):
+            for f in ("els", "mode", "nest", "outer", "branch", "bufsize", "bare", "pre", "post"):
                 if f in p:
-                    hist[i][f] = [dict(e) for e in p[f]] if isinstance(p[f], list) and f != "nest" else p[f]
+                    hist[i][f] = copy.deepcopy(p[f])
+                else:
+                    hist[i].pop(f, None)
             for part in ("els", "outer", "branch"):
                 for e in hist[i].get(part, []):
                     if e["k"] == "map":
                         e["raise"] = None
             hist[i]["reuse"] = True
-    return {"nc": nc, "fam": "R", "hist": hist}
+    case = {"nc": nc, "fam": "R", "hist": hist}
+    if rng.random() < 0.2:
+        # one Sequence object (a Cache, or a Cache and a neighbour) in the pipelines of several runs of the history
+        c0 = rng.randrange(nc)
+        seg = [dict(C(c0), proto=rng.randint(0, 5), method="pickle")]
+        if rng.random() < 0.5:
+            seg.insert(rng.randint(0, 1), M(rng.randint(1, 9)))
+        for op in hist:
+            if (op["op"] == "run" and op.get("mode") in MODES[:5] and not op.get("nest") and not op.get("reuse")
+                    and rng.random() < 0.7):
+                els = [e for e in op["els"] if not (e["k"] == "cache" and e["c"] == c0)]
+                at = rng.randint(0, len(els))
+                op["els"] = els[:at] + [dict(e) for e in seg] + els[at:]
+                op["share"] = [at, at + len(seg), 0]
+        # (a later run marked "reuse" copies the pipeline of an earlier run that has no share mark, or was made before)
+        for op in hist:
+            if op.get("reuse") and op["op"] == "run":
+                op.pop("share", None)
+    if rng.random() < 0.15:
+        case["dirs"] = True
+    return case
 
 
 def _enumerated(quick):
@@ -1532,7 +2119,8 @@ def _enumerated(quick):
         _family_x(),
         _family_e(range(0, 3) if quick else range(0, 5)),
         _family_n(),
-        _family_k(), _family_l(quick), _family_p(), _family_v(), _family_g())
+        _family_k(), _family_l(quick), _family_p(), _family_v(), _family_g(),
+        _family_m(range(0, 4) if quick else range(0, 5), quick), _family_o())
 
 
 def gen_cases(ctx):
@@ -1541,13 +2129,16 @@ def gen_cases(ctx):
     rng = ctx.rng
     quick = ctx.tier == "quick"
     ctx.exhaustive = False     # the enumerated families are complete; the random histories are sampled
-    n_random = 5000 if quick else 120000
+    n_random = 12000 if quick else 120000
     per = 1 if quick else 4
     made = 0
     for i, c in enumerate(_enumerated(quick)):
         c["vk"] = _VKS[i % 5]
+        if i % 6 == 5 and not any(op["op"] == "bufrule" for op in c["hist"]):
+            c["dirs"] = True            # the cache files in directories that do not exist yet
         for op in c["hist"]:            # pickle options rotate over the enumerated cases
-            for e in op.get("els", []) + op.get("outer", []) + op.get("branch", []):
+            for e in (op.get("els", []) + op.get("outer", []) + op.get("branch", [])
+                      + [e for m in (op.get("pre") or []) + (op.get("post") or []) for e in m.get("els", [])]):
                 if e["k"] in ("cache", "tcache"):
                     e["proto"], e["method"] = (i // 4) % 6, ("pickle", "cPickle")[(i // 24) % 2]
         yield c
@@ -1627,16 +2218,20 @@ LEVEL_TEXT = ("Lean 4 theorems about a transcribed generator machine (Cache.run 
               "recompute and drop_cache restore first-run behaviour, an interrupted run changes no cache file, and over "
               "every history a cache file only ever holds the complete flow of a run that reached its normal end; a Cache "
               "in a Sequence member of Split is filled with the whole flow (Split = outer run + one ordinary run of the "
-              "member), a filled bare Cache member is replayed exactly; templated cache names depend only on preceding "
+              "member; with several members of type sequence / fill_compute / fill_request: every Cache of every Sequence "
+              "member stores the whole flow, and the rule for the buffer size does not depend on the other members), a "
+              "filled bare Cache member is replayed exactly; templated cache names depend only on preceding "
               "SetContext elements and other names are never touched. The "
               "model is tied to /repo by a correspondence check on event traces and file-system snapshots over exhaustive "
               "small scopes plus seeded random histories, and a direct oracle evaluates the statement on the real code.")
 LEVEL_NOTE = ("Trusted: Lean kernel (+ propext, Classical.choice, Quot.sound), the hand transcription validated by the "
               "correspondence run, CPython generator finalisation and pickle/os semantics as transcribed, the JSON "
-              "protocol. 18 theorems carry the property, 26 more (instances, proof lemmas, encoding lemmas, decision "
+              "protocol. 22 theorems carry the property, 33 more (instances, proof lemmas, encoding lemmas, decision "
               "lemmas, one counterexample) are audited as support. Assumed, not proved: upstream elements are lazy "
               "(generator functions); pickle snapshots the value at dump time; runs on one cache file do not overlap; "
-              "Split runs are not part of the history theorems; members of Split of other types, several members and "
-              "errors of the Cache itself (pickling, disk) are outside the model.")
+              "Split runs are not part of the history theorems; several members of a Split are modelled when the Split reads "
+              "the whole flow (a Cache in a Sequence member, or bufsize=None), Source members other than a hoisted Cache, "
+              "FillComputeSeq/FillRequestSeq members with a Cache and errors of the Cache itself (pickling, disk) are "
+              "outside the model.")
 TECHNIQUE = "Lean 4 proof (one-step simulation + history invariant) over hand-written generator/file-system model + correspondence check"
 DESIGN_REF = "DESIGN.md section 3, C18"
